@@ -689,8 +689,9 @@ def neighbours (e : Ext) (nrows ncols idx : Int) : R Int := do
 /-- the local `long long neighbours[9]` of `c_upstream` / `c_downstream` -/
 def nbExt : Ext := constExt 9
 
-/-- one cell of `c_upstream`, writing row `row` of `idxup`; `ok false` = the error return -/
-def upstream1 (e : Ext) (nrows ncols : Int) (code fdir : Nat → Int) (row idxcell : Int) : R Bool := do
+/-- one cell of `c_upstream`, writing row `row` of `idxup` (a buffer of extents `eu`); `ok false` = the error
+return -/
+def upstream1 (e eu : Ext) (nrows ncols : Int) (code fdir : Nat → Int) (row idxcell : Int) : R Bool := do
   let n ← i64 (nrows * ncols)
   if idxcell < 0 ∨ idxcell ≥ n then pure false
   else do
@@ -705,20 +706,20 @@ def upstream1 (e : Ext) (nrows ncols : Int) (code fdir : Nat → Int) (row idxce
           else do
             let cd ← rdI e .flowdircode code (8 - j)
             if fd = cd then do
-              acc e .idxup (9 * row + k)
+              acc eu .idxup (9 * row + k)
               pure (.inl (k + 1))
             else pure (.inl k)) 9 0 0
     match r with
     | .inr x => nomatch x
     | .inl k => do
-      forEach (fun j => acc e .idxup (9 * row + j)) (9 - k).toNat k
+      forEach (fun j => acc eu .idxup (9 * row + j)) (9 - k).toNat k
       pure true
 
 /-- `c_upstream(nrows, ncols, flowdircode, flowdir, nval, idxdown, idxup)` -/
 def upstream (e : Ext) (nrows ncols nval : Int) (code fdir cells : Nat → Int) : R Int := do
   let r ← forLoop (σ := Unit) (ρ := Unit) (fun i _ => do
       let c ← rdI e .idxdown cells i
-      let ok ← upstream1 e nrows ncols code fdir i c
+      let ok ← upstream1 e e nrows ncols code fdir i c
       if ok then pure (.inl ()) else pure (.inr ())) nval.toNat 0 ()
   match r with
   | .inr _ => pure 1
@@ -1013,6 +1014,96 @@ def flowpathlengths (e : Ext) (nrows ncols nval outlet : Int) (code fdir cells :
       forEach (fun k => acc e .flowpaths (3 * i + k)) 3 0) nval.toNat 0
   pure 0
 
+/-! ### `c_delineate_area` -/
+
+/-- the non-negative entries `c_upstream` leaves in `idxup[0..9)` for a cell of the grid, in order: the
+neighbours (position `j`) that are not sinks and whose flow direction is the code mirrored at `8 - j` -/
+def upList (nrows ncols : Int) (code fdir : Nat → Int) (idxcell : Int) : List Int :=
+  (List.range 9).filterMap fun j =>
+    let nb := neighbour nrows ncols idxcell j
+    if nb = -1 then none
+    else if fdir nb.toNat = 0 then none
+    else if fdir nb.toNat = code (8 - j) then some nb else none
+
+/-- `for(m=0; m<ninlets; m++) if(idxinlets[m] == idx) break;` → `m < ninlets` -/
+def isInlet (e : Ext) (ninlets : Int) (inlets : Nat → Int) (idx : Int) : R Bool := do
+  let r ← forLoop (σ := Unit) (ρ := Unit) (fun m _ => do
+      let v ← rdI e .idxinlets inlets m
+      if v = idx then pure (.inr ()) else pure (.inl ())) ninlets.toNat 0 ()
+  match r with
+  | .inr _ => pure true
+  | .inl _ => pure false
+
+/-- state of the layer loop: `i` (cells stored so far) and the content of `buffer2[0..nbuffer2)` -/
+structure DA where
+  i : Int
+  buf2 : List Int
+
+/-- storing one upstream cell; `inr code` = `return code` -/
+def daStore (e : Ext) (nval idx : Int) (s : DA) : R (DA ⊕ Int) :=
+  if s.i = nval - 1 then pure (.inr 1)
+  else do
+    acc e .idxcellsArea s.i
+    acc e .buffer2 s.buf2.length
+    if (s.buf2.length : Int) = nval - 1 then pure (.inr 1)
+    else pure (.inl { i := s.i + 1, buf2 := s.buf2 ++ [idx] })
+
+/-- one cell of `buffer1`: its upstream cells that are not inlets are stored -/
+def daCell (e : Ext) (nrows ncols nval ninlets : Int) (code fdir inlets : Nat → Int) (idxcell : Int) (s : DA) :
+    R (DA ⊕ Int) := do
+  -- `c_upstream(…, 1, idxcell, idxup)` with the locals `idxcell[1]`, `idxup[9]`; its error return (a cell outside
+  -- the grid) would leave `idxup` as it was — the cells handed to it are the outlet and cells it produced
+  let _ ← upstream1 e (constExt 9) nrows ncols code fdir 0 idxcell
+  forEach (fun k => acc (constExt 9) .idxup k) 9 0
+  let ups := upList nrows ncols code fdir idxcell
+  forLoop (fun k s => do
+      let idx := ups.getD k.toNat (-1)
+      let isin ← isInlet e ninlets inlets idx
+      if isin then pure (.inl s) else daStore e nval idx s) ups.length 0 s
+
+/-- one layer of the breadth-first search (`nlayer = t`) -/
+def daLayer (e : Ext) (nrows ncols nval ninlets idxoutlet : Int) (code fdir inlets : Nat → Int)
+    (t : Int) (s : DA) : R (DA ⊕ Int) := do
+  forEach (fun l => do acc e .buffer2 l; acc e .buffer1 l) s.buf2.length 0
+  let buf1 := s.buf2
+  let r ← forLoop (fun l s' => do
+      acc e .buffer1 l
+      daCell e nrows ncols nval ninlets code fdir inlets (buf1.getD l.toNat (-1)) s')
+    buf1.length 0 { i := s.i, buf2 := [] }
+  match r with
+  | .inr c => pure (.inr c)
+  | .inl s' =>
+    if s'.buf2.length = 0 then pure (.inr 0)
+    else if t = 0 then
+      if s'.i = nval - 1 then pure (.inr 1)
+      else do
+        acc e .idxcellsArea s'.i
+        let _ := idxoutlet
+        pure (.inl { s' with i := s'.i + 1 })
+    else pure (.inl s')
+
+/-- `c_delineate_area(nrows, ncols, flowdircode, flowdir, idxoutlet, ninlets, idxinlets, nval, idxcells_area,
+buffer1, buffer2)`. The `while(nlayer>=0)` loop has no bound of its own: every layer that does not return stores
+at least one cell and `i` stops at `nval-1`, so `nval+1` layers are fuel enough (theorem: never exhausted). -/
+def delineateArea (e : Ext) (nrows ncols nval ninlets idxoutlet : Int) (code fdir inlets : Nat → Int) : R Int :=
+  if nval < 1 then pure 1
+  else do
+    let n ← i64 (nrows * ncols)
+    if idxoutlet < 0 ∨ idxoutlet > n - 1 then pure 1
+    else do
+      let r ← forLoop (σ := Unit) (ρ := Unit) (fun m _ => do
+          let v ← rdI e .idxinlets inlets m
+          if v < 0 ∨ v > n - 1 then pure (.inr ()) else pure (.inl ())) ninlets.toNat 0 ()
+      match r with
+      | .inr _ => pure 1
+      | .inl _ => do
+        acc e .buffer2 0
+        let w ← forLoop (daLayer e nrows ncols nval ninlets idxoutlet code fdir inlets) (nval.toNat + 1) 0
+          { i := 0, buf2 := [idxoutlet] }
+        match w with
+        | .inr c => pure c
+        | .inl _ => .error .fuel
+
 /-! ### `c_delineate_boundary` -/
 
 /-- `shift[k]`: `-1, 1, -ncols, ncols` -/
@@ -1137,5 +1228,6 @@ def delineateBoundary (e : Ext) (nrows ncols nval : Int) (cells mask : Nat → I
 /- sub-routines that have their own specification lemma (`Lemmas/C05.lean`): kept opaque to the elaborator so
 that proofs about their callers go through the specification (`unfold` still opens them) -/
 attribute [irreducible] getnxy coord2cell1 neighboursInto downstream1 upstream1 intersectFind bndIsOut bndStep1
+  isInlet daCell
 
 end HydroVerif.C05
